@@ -632,6 +632,68 @@ def absent_at(cfg, node, kwname="kwargs"):
 MEMO_DECORATORS = {"functools.lru_cache", "functools.cache", "functools.cached_property", "functools32.lru_cache", "cachetools.cached", "cachetools.func.lru_cache", "cachetools.func.ttl_cache"}
 
 
+def kept_values_are_copied(idx, fi, hits, memo):
+    """Every array taken out of what is kept between executions is copied before anything else is done with it:
+      * a read of the module state that yields a kept value (`S[k]`, `S.get(k)`) is the receiver of `.copy()` / the argument of
+        copy.copy / copy.deepcopy / numpy.array right there;
+      * the value of a call to a cached helper is bound to a name whose first use other than a None test is `name = name.copy()`.
+    Then no result shares storage with the kept arrays (C09's concern); whether the kept VALUE is still right is another question."""
+    par = {}
+    fns = {h[0] for h in hits} | {fi}
+    for f_ in fns:
+        node = getattr(f_, "node_orig", None) or f_.node
+        for x in ast.walk(node):
+            for c in ast.iter_child_nodes(x):
+                par[id(c)] = x
+
+    def copied(n):
+        up = par.get(id(n))
+        if isinstance(up, ast.Attribute) and up.attr == "copy" and isinstance(par.get(id(up)), ast.Call):
+            return True
+        if isinstance(up, ast.Call) and n in up.args and (src(up.func) in ("copy.copy", "copy.deepcopy", "deepcopy", "numpy.array", "numpy.ma.array", "numpy.copy", "numpy.ma.copy")) \
+                and not any(k.arg == "copy" and isinstance(k.value, ast.Constant) and k.value.value is False for k in up.keywords):
+            return True
+        return False
+
+    statenames = {h[2][1] for h in hits}
+    for f_ in {h[0] for h in hits}:
+        node = getattr(f_, "node_orig", None) or f_.node
+        for x in ast.walk(node):
+            takes = None
+            if isinstance(x, ast.Subscript) and isinstance(x.ctx, ast.Load) and isinstance(x.value, ast.Name) and x.value.id in statenames:
+                takes = x
+            if isinstance(x, ast.Call) and isinstance(x.func, ast.Attribute) and x.func.attr in ("get", "pop", "setdefault") and isinstance(x.func.value, ast.Name) and x.func.value.id in statenames:
+                takes = x
+            if takes is not None and not copied(takes):
+                return False
+        # the bare state object handed on / returned / iterated (values()) is not followed
+        for x in ast.walk(node):
+            if isinstance(x, ast.Call) and isinstance(x.func, ast.Attribute) and x.func.attr in ("values", "items") and isinstance(x.func.value, ast.Name) and x.func.value.id in statenames:
+                return False
+    memo_names = {m[0].name for m in memo}
+    if memo_names:
+        node = getattr(fi, "node_orig", None) or fi.node
+        for x in ast.walk(node):
+            if isinstance(x, ast.Call) and ((isinstance(x.func, ast.Name) and x.func.id in memo_names) or (isinstance(x.func, ast.Attribute) and x.func.attr in memo_names)):
+                up = par.get(id(x))
+                if copied(x):
+                    continue
+                if not (isinstance(up, ast.Assign) and len(up.targets) == 1 and isinstance(up.targets[0], ast.Name)):
+                    return False
+                nm = up.targets[0].id
+                copies = [a for a in ast.walk(node) if isinstance(a, ast.Assign) and len(a.targets) == 1 and isinstance(a.targets[0], ast.Name) and a.targets[0].id == nm
+                          and isinstance(a.value, ast.Call) and isinstance(a.value.func, ast.Attribute) and a.value.func.attr == "copy" and isinstance(a.value.func.value, ast.Name) and a.value.func.value.id == nm]
+                if not copies:
+                    return False
+                first = min(c.lineno for c in copies)
+                for u in ast.walk(node):
+                    if isinstance(u, ast.Name) and u.id == nm and isinstance(u.ctx, ast.Load) and up.lineno < u.lineno < first:
+                        pu = par.get(id(u))
+                        if not (isinstance(pu, ast.Compare) and all(isinstance(o, (ast.Is, ast.IsNot)) for o in pu.ops)):
+                            return False
+    return True
+
+
 def memoised_helpers(idx, fi):
     """functions reached from `fi` (helpers included, on the source as written) that carry a result cache: [(helper, decorator text)]"""
     out = []
